@@ -200,9 +200,11 @@ impl From<OutstationConfig> for SessionConfig {
 impl From<OutstationConfig> for SessionParameters {
     fn from(x: OutstationConfig) -> Self {
         SessionParameters {
+            // the documented minimum applies here as it does in the database
             max_read_headers_per_request: x
                 .max_read_request_headers
-                .unwrap_or(OutstationConfig::DEFAULT_MAX_READ_REQUEST_HEADERS),
+                .unwrap_or(OutstationConfig::DEFAULT_MAX_READ_REQUEST_HEADERS)
+                .max(OutstationConfig::DEFAULT_MAX_READ_REQUEST_HEADERS),
             sol_tx_buffer_size: x.solicited_buffer_size,
             unsol_tx_buffer_size: x.unsolicited_buffer_size,
         }
